@@ -39,6 +39,12 @@
 (*        + "NAME": the CHARACTERS of one attribute NAME (one character of the  *)
 (*        per-site table ParserStruct.NameCharsAt inside / at the end / twice)   *)
 (*        x delimiters x rest of the map x site; expected = the written name    *)
+(*   "SEP" : the SEPARATOR CHARACTERS of the table grammar ( !! ! || |- |+ |} )  *)
+(*        written inside an inline construct of a cell (link label / target,     *)
+(*        template / parser-function / argument-reference argument, external-    *)
+(*        link label, HTML element, bold / italic run, plain text) x position in  *)
+(*        it x cell x header / data row x separator style x spacing; expected:    *)
+(*        they belong to the construct, the grid stays 2x2 ("SEPT": full cross)   *)
 (*   "FILE" : pages read from IOEnv.PAGES_FILE (random wider grids, V)        *)
 (* Part/Parts split a universe over parallel TLC processes.                   *)
 EXTENDS ParserStruct, Json, IOUtils
@@ -253,6 +259,65 @@ NamePages(z) == { pg \in NamePagesAll(z) : Admissible(pg) /\ Len(Render(pg)) % P
 ASSUME {TableNameCharSeq[i] : i \in 1..Len(TableNameCharSeq)} = TableNameChars
 ASSUME {TagNameCharSeq[i] : i \in 1..Len(TagNameCharSeq)} = TagNameChars
 
+(* ---------------- separator characters of the table grammar inside inline constructs ---------------- *)
+\* The character sequences that separate the parts of a table ( !! ! || | |- |+ |} ) written INSIDE an inline
+\* construct that sits in a cell of a 2x2 table: they belong to the construct (TreeOf: the grid stays 2x2, the
+\* construct keeps its written argument lists / content).  Family BANG: ! and !! as characters of a text at the
+\* end / in the middle / at the start of (1) a link label (2) a link target (3) a template argument (4) a named
+\* template argument (5) the default of an argument reference (6) a parser-function argument (7) the label of an
+\* external link (8) an inline HTML element (9) a bold run (10) an italic run (11) the plain text of the cell.
+\* Family BAR: | followed by | - + } inside a call / link, where | separates arguments: an empty argument in the
+\* middle ( || ), an argument that starts with - or + ( |- |+ ), an empty last argument ( |}} ).
+\* x cell (first / second of the first row) x header / data row x one cell per line / separated inline (on a
+\* header line by !! or by ||) x spaced / tight x alone in the cell / between words.
+\* Not written structures (SepOK): on a header line MediaWiki's table grammar itself splits at a !! that is not
+\* protected by brackets: bold / italic runs, plain text and HTML elements holding ! characters stand in data cells only.
+BangShapes(b) == << <<"w1">> \o b, <<"w1">> \o b \o <<"w2">>, b \o <<"w1">> >>
+Bangs == << <<"!", "!">>, <<"!">> >>
+BangHolders == 11
+BangHolder(c, w) ==
+  LET x == <<T(w)>> IN
+  CASE c = 1 -> Lk(<<W("l"), x>>, <<>>)
+    [] c = 2 -> Lk(<<x>>, <<>>)
+    [] c = 3 -> Tp(<<W("t"), x>>)
+    [] c = 4 -> Tp(<<W("t"), <<T(<<"k", "=">> \o w)>>>>)
+    [] c = 5 -> Ar(<<W("1"), x>>)
+    [] c = 6 -> Pf(<<"#", "if">>, <<W("c1"), x>>)
+    [] c = 7 -> Ex(Url1, x)
+    [] c = 8 -> Ht("span", HM[2], x)
+    [] c = 9 -> Bo(x)
+    [] c = 10 -> It(x)
+    [] c = 11 -> T(w)
+BarArgs == << << <<>>, W("b1") >>, << <<T(<<"-", "b1">>)>> >>, << <<T(<<"+", "b1">>)>> >>, << <<>> >> >>
+BarHolder(c, as) ==
+  CASE c = 1 -> Lk(<<W("l")>> \o as, <<>>)
+    [] c = 2 -> Tp(<<W("t")>> \o as)
+    [] c = 3 -> Ar(<<W("1")>> \o as)
+    [] c = 4 -> Pf(<<"#", "if">>, <<W("c1")>> \o as)
+SepTable(item, sur, pos, hdr, sep, sp, hb) ==
+  LET content == IF sur = 0 THEN <<item>> ELSE <<T(<<"p1", "SP">>), item, T(<<"SP", "q1">>)>>
+      K == IF hdr THEN "hdr" ELSE "data"
+  IN <<[k |-> "TB", tattrs |-> <<>>, hascap |-> FALSE, cattrs |-> <<>>, caption |-> <<>>,
+        rows |-> << [rattrs |-> <<>>, cells |-> <<Cell(K, <<>>, IF pos = 1 THEN content ELSE W("a1")),
+                                                  Cell(K, <<>>, IF pos = 2 THEN content ELSE W("b2"))>>],
+                    [rattrs |-> <<>>, cells |-> <<Cell("data", <<>>, W("c1")), Cell("data", <<>>, W("d1"))>>] >>,
+        style |-> [Sty(sep, sp, "dq", TRUE) EXCEPT !.hbar = hb]]>>
+\* v = <<holder, bang / bar index, shape, surrounding, cell, header row, separator style, spaced, || on a header line>>
+SepOK(fam, v) ==
+  /\ v[9] => (v[6] /\ v[7] = "inline")                        \* one spelling of what does not exist
+  /\ (fam = "bang" /\ v[1] >= 8) => ~v[6]                      \* unprotected ! characters: data cells only
+  /\ (fam = "bar" /\ v[1] = 1) => v[2] # 4                     \* [[l|]] is the pipe trick, not an empty label
+SepFull == Universe = "SEPT"
+\* quick: spacing and surrounding tied to the other indices
+SepKeep(v) == SepFull \/ (v[8] = ((v[1] + v[2] + v[3] + v[5]) % 2 = 0) /\ v[4] = (v[1] + v[3] + (IF v[6] THEN 1 ELSE 0)) % 2)
+SepTuples(n, m, k) == { w \in (1..n) \X (1..m) \X (1..k) \X (0..1) \X (1..2) \X BOOLEAN \X {"line", "inline"} \X BOOLEAN \X BOOLEAN : SepKeep(w) }
+SepPagesAll(z) ==
+  { SepTable(BangHolder(v[1], BangShapes(Bangs[v[2]])[v[3]]), v[4], v[5], v[6], v[7], v[8], v[9]) :
+      v \in { w \in SepTuples(BangHolders, 2, 3) : SepOK("bang", w) } }
+  \cup { SepTable(BarHolder(v[1], BarArgs[v[2]]), v[4], v[5], v[6], v[7], v[8], v[9]) :
+      v \in { w \in SepTuples(4, Len(BarArgs), 1) : SepOK("bar", w) } }
+SepPages(z) == { pg \in SepPagesAll(z) : Admissible(pg) /\ Len(Render(pg)) % Parts = Part }
+
 (* ---------------- calls and links ---------------- *)
 ArgCat ==
   << W("a1"), <<T(<<"SP", "a1", "SP">>)>>, <<T(<<"k", "=", "v1">>)>>, <<>>,
@@ -382,6 +447,7 @@ Pages ==
     [] Universe \in {"HIST", "HISTT"} -> Histories(0)      \* here `page` is a history: Seq([op, page])
     [] Universe \in {"ATTR", "ATTRT"} -> AttrPages(0) \cup NamePages(0)
     [] Universe \in {"NAME", "NAMET"} -> NamePages(0)          \* the name family alone
+    [] Universe \in {"SEP", "SEPT"} -> SepPages(0)
     [] Universe = "FILE" -> FilePages(0)
 
 \* `done` only keeps TLC from evaluating the invariant twice per structure
